@@ -150,6 +150,20 @@ whatever kind of answer (positive, NXDOMAIN, NODATA, SERVFAIL) it is. -/
 def replaceIfCurrent (samePartition : Bool) (cut : Deadline) (cutKey : Nat) : Option (Deadline × Nat) :=
   if samePartition then some (cut, cutKey) else none
 
+/-- `boundRequestToEntryLifetime`: a cache hit folds the EARLIER of the entry's own expiry
+(`stored + ttl`) and its delegation cut into the request tree's meta (identity: the cut's
+key when the cut decides, else 0). -/
+def entryBound (m : Meta) (stored ttl : Int) (cut : Deadline) (cutKey : Nat) : Meta :=
+  match cut with
+  | some c => if c ≤ stored + ttl then m.boundCutFor (some c) cutKey else m.boundCutFor (some (stored + ttl)) 0
+  | none => m.boundCutFor (some (stored + ttl)) 0
+
+/-- `checkGlueRR` for one glued name server: the servers a referral yields, and what the
+(lease-less) glue address cache holds afterwards, are the addresses of THIS referral
+whatever the cache held before; without glue the cache is left alone and nothing is yielded. -/
+def glueFromReferral (cached : List Nat) (referral : List Nat) : List Nat × List Nat :=
+  if referral.isEmpty then ([], cached) else (referral, referral)
+
 /-- what every write entry point of the answer cache (`SetFromResponseWithKey`,
 `SetFromResponseWithCut`, `SetFromResponseScoped`, the prefetch worker's write-back)
 stores as `cutUntil` / `cutKey`: the delegation cut it was handed, verbatim — an ECS
